@@ -44,7 +44,12 @@
 (*    between acknowledgement and SetSync re-delivers by design            *)
 (*  - the value carried by a notification (only logged by the code; the    *)
 (*    DelBlock path passes -1)                                             *)
-(*  - the 1 MB size limit of a batch (blocks here are far smaller)         *)
+(*  - the size limit of receipt / EVM batches (their blocks here are far    *)
+(*    smaller than 1 MB); the limit of block and header batches IS         *)
+(*    modelled: a record has a size (a block carrying a subscribed coins   *)
+(*    transfer counts 2 units, any other block 1; a header always 1), a    *)
+(*    batch is cut by count (<= MaxBatch) or where the cumulative size     *)
+(*    would reach msize -- the first record is always included             *)
 (* Switches RunningAtSpawn / JumpAtZero select the mechanism as found      *)
 (* (FALSE / TRUE) or as repaired (TRUE / FALSE).                           *)
 (***************************************************************************)
@@ -61,7 +66,8 @@ CONSTANTS
   FailSleeps,     \* possible values of Push.postFail2Sleep
   Bases,          \* subset of {0,1}: 0 = the log really starts at sequence 0, 1 = model sequence 0 is a later real sequence
   Gates,          \* subset of BOOLEAN: is the goroutine start controlled by the harness
-  Kinds,          \* subset of {"block","receipt"}
+  Kinds,          \* subset of {"block","header","result","receipt"} (the push types of push.go)
+  MaxSizes,       \* possible values of the batch size limit in units (pushMaxSize); 100 = never reached
   MaxBatch,       \* pushBlockMaxSeq (10); receipts use 10*MaxBatch
   Cap,            \* chanBufCap (10)
   FailLimit,      \* consecutive failures that deactivate (3)
@@ -71,10 +77,10 @@ CONSTANTS
   EmitOn          \* build the JSON label of every step
 
 VARIABLES log, stack, pend, db, cur, obj, gor, base, viol, closing,
-          nfail, nreg, nrestart, ndel, gate, base0, fsleep, kind, act
+          nfail, nreg, nrestart, ndel, gate, base0, fsleep, kind, msize, act
 
 mvars == <<log, stack, pend, db, cur, obj, gor, base, viol, closing,
-           nfail, nreg, nrestart, ndel, gate, base0, fsleep, kind>>
+           nfail, nreg, nrestart, ndel, gate, base0, fsleep, kind, msize>>
 vars == <<mvars, act>>
 view == mvars
 
@@ -100,9 +106,19 @@ FreeObj == Min({o \in Gs : ~UsedObj(o)})
 Real(x) == IF x < 0 THEN x ELSE x + base0
 NoResume(x) == IF JumpAtZero THEN Real(x) <= 0 ELSE Real(x) < 0
 
-Relevant(s, q) == kind[s] = "block" \/ log[q + 1].rel
+Relevant(s, q) == kind[s] # "receipt" \/ log[q + 1].rel
 RelSeqs(s, lo, hi) == {q \in lo..hi : Relevant(s, q)}
-BatchMax(s) == IF kind[s] = "block" THEN MaxBatch ELSE 10 * MaxBatch
+BatchMax(s) == IF kind[s] = "receipt" THEN 10 * MaxBatch ELSE MaxBatch
+
+\* size of the data posted for sequence q (getBlockSeqs: the stored block detail; getHeaderSeqs: the header)
+Sz(s, q) == IF kind[s] = "block" /\ log[q + 1].rel THEN 2 ELSE 1
+SumSz(s, lo, j) == LET S[i \in (lo - 1)..j] == IF i < lo THEN 0 ELSE S[i - 1] + Sz(s, i) IN S[j]
+SizeLimited(s) == kind[s] \in {"block", "header"}
+\* last sequence of the batch starting at lo when at most hc may go by count:
+\* "if totalSize == 0 || totalSize+size < maxSize { append } else { break }"
+CutAt(s, lo, hc) == IF SizeLimited(s)
+                    THEN Max({j \in lo..hc : j = lo \/ SumSz(s, lo, j) < msize})
+                    ELSE hc
 
 -----------------------------------------------------------------------------
 \* projection compared with the real node in settled states
@@ -141,9 +157,9 @@ Init ==
   /\ viol = {} /\ closing = FALSE
   /\ nfail = 0 /\ nreg = 0 /\ nrestart = 0 /\ ndel = 0
   /\ gate \in Gates /\ base0 \in Bases /\ fsleep \in FailSleeps
-  /\ kind \in [Subs -> Kinds]
+  /\ kind \in [Subs -> Kinds] /\ msize \in MaxSizes
   /\ act = IF EmitOn THEN ToJson([op |-> "Init", gate |-> gate, base0 |-> base0, fsleep |-> fsleep,
-                                  kind |-> kind, ret |-> "ok"]) ELSE ""
+                                  kind |-> kind, msize |-> msize, ret |-> "ok"]) ELSE ""
 
 -----------------------------------------------------------------------------
 \* the block sequence log
@@ -166,20 +182,20 @@ Notified(ob) == [o \in Gs |-> IF ob[o].s # 0 /\ cur[ob[o].s] = o /\ ob[o].chan <
 AppendSeq(k, rel) ==
   /\ ~GenMode /\ pend = 0 /\ CanAppend(k)
   /\ DoAppend(k, rel) /\ pend' = 1
-  /\ UNCHANGED <<db, cur, obj, gor, base, viol, closing, nfail, nreg, nrestart, gate, base0, fsleep, kind>>
+  /\ UNCHANGED <<db, cur, obj, gor, base, viol, closing, nfail, nreg, nrestart, gate, base0, fsleep, kind, msize>>
   /\ Emit([op |-> "AppendSeq", k |-> k, rel |-> rel, ret |-> Last + 1])
 \* ... and then UpdateSeq ran
 NotifySeq ==
   /\ ~GenMode /\ pend = 1
   /\ obj' = Notified(obj) /\ pend' = 0
-  /\ UNCHANGED <<log, stack, db, cur, gor, base, viol, closing, nfail, nreg, nrestart, ndel, gate, base0, fsleep, kind>>
+  /\ UNCHANGED <<log, stack, db, cur, gor, base, viol, closing, nfail, nreg, nrestart, ndel, gate, base0, fsleep, kind, msize>>
   /\ Emit([op |-> "NotifySeq", ret |-> "-"])
 
 \* GenMode: one block added to the tip while every task is settled
 AddBlock(rel) ==
   /\ GenMode /\ Settled /\ CanAppend("add")
   /\ DoAppend("add", rel) /\ obj' = Notified(obj)
-  /\ UNCHANGED <<pend, db, cur, gor, base, viol, closing, nfail, nreg, nrestart, gate, base0, fsleep, kind>>
+  /\ UNCHANGED <<pend, db, cur, gor, base, viol, closing, nfail, nreg, nrestart, gate, base0, fsleep, kind, msize>>
   /\ Emit([op |-> "AddBlock", rel |-> rel, ret |-> Last + 1])
 
 \* GenMode: a reorganisation of depth n (n del records, n+1 add records, one notification each)
@@ -195,7 +211,7 @@ Reorg(n, rel) ==
   /\ stack' = SubSeq(stack, 1, height - n) \o [i \in 1..(n + 1) |-> rel]
   /\ ndel' = ndel + n
   /\ obj' = NotifiedN(obj, 2 * n + 1)
-  /\ UNCHANGED <<pend, db, cur, gor, base, viol, closing, nfail, nreg, nrestart, gate, base0, fsleep, kind>>
+  /\ UNCHANGED <<pend, db, cur, gor, base, viol, closing, nfail, nreg, nrestart, gate, base0, fsleep, kind, msize>>
   /\ Emit([op |-> "Reorg", n |-> n, rel |-> rel, ret |-> Last + 2 * n + 1])
 
 -----------------------------------------------------------------------------
@@ -238,7 +254,7 @@ Register(s, k) ==
                   /\ obj' = [obj EXCEPT ![cur[s]].chan = @ + 1, ![cur[s]].running = (@ \/ RunningAtSpawn)]
                   /\ gor' = [gor EXCEPT ![FreeSlot] = Spawned(s, cur[s])]
                   /\ UNCHANGED <<cur, base>>
-  /\ UNCHANGED <<log, stack, pend, viol, closing, nfail, nrestart, ndel, gate, base0, fsleep, kind>>
+  /\ UNCHANGED <<log, stack, pend, viol, closing, nfail, nrestart, ndel, gate, base0, fsleep, kind, msize>>
   /\ Emit([op |-> "Register", s |-> s, start |-> k, ret |-> "ok"])
 
 -----------------------------------------------------------------------------
@@ -251,7 +267,7 @@ Start(g) ==
   /\ LET s == gor[g].s IN
      /\ gor' = [gor EXCEPT ![g].pc = "wait", ![g].last = db[s].last]
      /\ obj' = [obj EXCEPT ![gor[g].o].running = TRUE]
-  /\ UNCHANGED <<log, stack, pend, db, cur, base, viol, closing, nfail, nreg, nrestart, ndel, gate, base0, fsleep, kind>>
+  /\ UNCHANGED <<log, stack, pend, db, cur, base, viol, closing, nfail, nreg, nrestart, ndel, gate, base0, fsleep, kind, msize>>
   /\ Emit([op |-> IF gate THEN "Release" ELSE "Start", g |-> g, s |-> gor[g].s, ret |-> "ok"])
 
 \* case <-runChan: count the back-off down
@@ -262,14 +278,14 @@ Tick(g) ==
          again == sl > 1 IN
      /\ obj' = [obj EXCEPT ![o].sleep = IF sl > 0 THEN sl - 1 ELSE 0]
      /\ gor' = [gor EXCEPT ![g].ticks = IF again THEN @ ELSE @ - 1]
-  /\ UNCHANGED <<log, stack, pend, db, cur, base, viol, closing, nfail, nreg, nrestart, ndel, gate, base0, fsleep, kind>>
+  /\ UNCHANGED <<log, stack, pend, db, cur, base, viol, closing, nfail, nreg, nrestart, ndel, gate, base0, fsleep, kind, msize>>
   /\ Emit([op |-> "Tick", g |-> g, ret |-> "-"])
 
 \* case lastestSeq := <-in.seqUpdateChan
 Wake(g) ==
   /\ gor[g].pc = "wait" /\ obj[gor[g].o].chan > 0
   /\ GenMode => SoleWaiter(g)       \* replays need a determined receiver; the behaviour ends otherwise
-  /\ UNCHANGED <<log, stack, pend, db, cur, viol, closing, nfail, nreg, nrestart, ndel, gate, base0, fsleep, kind>>
+  /\ UNCHANGED <<log, stack, pend, db, cur, viol, closing, nfail, nreg, nrestart, ndel, gate, base0, fsleep, kind, msize>>
   /\ LET r == gor[g]
          s == r.s
          o == r.o
@@ -294,7 +310,8 @@ Wake(g) ==
           /\ base' = [base EXCEPT ![s] = IF @ = NoBase THEN latest ELSE @]
           /\ Emit([op |-> "Wake", g |-> g, s |-> s, what |-> "jump", ret |-> "-"])
      ELSE LET lo == r.last + 1
-              hi == IF latest - r.last > BatchMax(s) THEN r.last + BatchMax(s) ELSE latest IN
+              hc == IF latest - r.last > BatchMax(s) THEN r.last + BatchMax(s) ELSE latest
+              hi == CutAt(s, lo, hc) IN
           IF RelSeqs(s, lo, hi) = {}
           THEN \* nothing to post for this range: advance in memory only, re-trigger if behind
                /\ obj' = [obj EXCEPT ![o] = [o1 EXCEPT !.chan = IF hi < latest /\ @ = 0 THEN 1 ELSE @]]
@@ -312,7 +329,7 @@ Deliver(g, r) ==
   /\ gor[g].pc = "flight"
   /\ GenMode => Settled
   /\ r = "fail" => nfail < MaxFail
-  /\ UNCHANGED <<log, stack, pend, db, cur, obj, closing, nreg, nrestart, ndel, gate, base0, fsleep, kind>>
+  /\ UNCHANGED <<log, stack, pend, db, cur, obj, closing, nreg, nrestart, ndel, gate, base0, fsleep, kind, msize>>
   /\ LET s == gor[g].s
          R == RelSeqs(s, gor[g].lo, gor[g].hi)
          mn == Min(R)
@@ -329,7 +346,7 @@ Deliver(g, r) ==
 \* PostData returned
 Return(g) ==
   /\ gor[g].pc = "replied"
-  /\ UNCHANGED <<log, stack, pend, base, viol, closing, nfail, nreg, nrestart, ndel, gate, base0, fsleep, kind>>
+  /\ UNCHANGED <<log, stack, pend, base, viol, closing, nfail, nreg, nrestart, ndel, gate, base0, fsleep, kind, msize>>
   /\ LET r == gor[g]
          s == r.s
          o == r.o IN
@@ -363,7 +380,7 @@ Restart ==
   /\ ~closing /\ nrestart < MaxRestart /\ pend = 0
   /\ GenMode => (Settled /\ \A g \in Gs : Live(g) => gor[g].pc = "wait")
   /\ closing' = TRUE /\ nrestart' = nrestart + 1
-  /\ UNCHANGED <<log, stack, pend, db, cur, obj, gor, base, viol, nfail, nreg, ndel, gate, base0, fsleep, kind>>
+  /\ UNCHANGED <<log, stack, pend, db, cur, obj, gor, base, viol, nfail, nreg, ndel, gate, base0, fsleep, kind, msize>>
   /\ Emit([op |-> "Restart", ret |-> "-"])
 
 \* case <-in.closechan
@@ -371,7 +388,7 @@ Exit(g) ==
   /\ closing /\ gor[g].pc = "wait"
   /\ GenMode => (obj[gor[g].o].chan = 0 /\ gor[g].ticks = 0)
   /\ gor' = [gor EXCEPT ![g] = FreeG]
-  /\ UNCHANGED <<log, stack, pend, db, cur, obj, base, viol, closing, nfail, nreg, nrestart, ndel, gate, base0, fsleep, kind>>
+  /\ UNCHANGED <<log, stack, pend, db, cur, obj, base, viol, closing, nfail, nreg, nrestart, ndel, gate, base0, fsleep, kind, msize>>
   /\ Emit([op |-> "Exit", g |-> g, ret |-> "-"])
 
 \* Close returned; init() starts a task for every active record
@@ -387,7 +404,7 @@ Resume ==
   /\ gor' = [g \in Gs |-> IF \E s \in ActiveSubs : Rank(s) + 1 = g
                           THEN LET s == CHOOSE t \in ActiveSubs : Rank(t) + 1 = g IN Spawned(s, g) ELSE FreeG]
   /\ base' = [s \in Subs |-> IF s \in ActiveSubs /\ db[s].last < 0 THEN NoBase ELSE base[s]]
-  /\ UNCHANGED <<log, stack, pend, db, viol, nfail, nreg, nrestart, ndel, gate, base0, fsleep, kind>>
+  /\ UNCHANGED <<log, stack, pend, db, viol, nfail, nreg, nrestart, ndel, gate, base0, fsleep, kind, msize>>
   /\ Emit([op |-> "Resume", ret |-> "ok"])
 
 -----------------------------------------------------------------------------
@@ -427,6 +444,10 @@ TypeOK ==
                      /\ base[s] \in {NoBase} \cup (-1..MaxSeq)
   /\ \A o \in Gs : obj[o].chan \in 0..Cap /\ obj[o].sleep >= 0
   /\ \A g \in Gs : Live(g) => (gor[g].o \in Gs /\ obj[gor[g].o].s = gor[g].s /\ gor[g].cnt < FailLimit)
+
+\* reachability probe (expected to be violated): no posted batch was ever cut short by the size limit
+NoSizeCut == \A g \in Gs : gor[g].pc = "flight" =>
+               (gor[g].hi = gor[g].latest \/ gor[g].hi - gor[g].lo + 1 >= BatchMax(gor[g].s))
 
 \* at most one goroutine serves a subscriber (holds for the repaired mechanism)
 OneTask == \A s \in Subs : Cardinality(LiveOf(s)) <= 1
